@@ -49,7 +49,7 @@ Definition get_u8 (l : list N) : outcome (N * list N) :=
 Definition get_bytes (n : N) (l : list N) : outcome (list N * list N) :=
   if n <=? lenN l then Ok (takeN n l, dropN n l) else Err E_EOF.
 Definition get_be (n : N) (l : list N) : outcome (N * list N) :=
-  do '(b, r) <- get_bytes n l ; Ok (be_decode b, r).
+  do (b, r) <- get_bytes n l ; Ok (be_decode b, r).
 
 (* raw_options.entry(code).or_default().extend(bytes) *)
 Fixpoint opt_extend (os : list (N * list N)) (code : N) (v : list N) : list (N * list N) :=
@@ -64,12 +64,13 @@ Fixpoint parse_options (fuel : nat) (l : list N) (acc : list (N * list N)) : out
   | S f =>
     match l with
     | [] => Err E_EOF
-    | 0 :: r => parse_options f r acc
-    | 255 :: _ => Ok acc
     | x :: r =>
-      do '(len, r1) <- get_u8 r ;
-      do '(v, r2) <- get_bytes len r1 ;
-      parse_options f r2 (opt_extend acc x v)
+      if x =? 0 then parse_options f r acc          (* pad *)
+      else if x =? 255 then Ok acc                  (* end *)
+      else
+        do (len, r1) <- get_u8 r ;
+        do (v, r2) <- get_bytes len r1 ;
+        parse_options f r2 (opt_extend acc x v)
     end
   end.
 
@@ -80,22 +81,22 @@ Fixpoint null_terminated (v : list N) : list N :=
   end.
 
 Definition decode (pkt : list N) : outcome dhcp :=
-  do '(op, b) <- get_u8 pkt ;
-  do '(htype, b) <- get_u8 b ;
-  do '(hlen, b) <- get_u8 b ;
-  do '(hops, b) <- get_u8 b ;
-  do '(xid, b) <- get_be 4 b ;
-  do '(secs, b) <- get_be 2 b ;
-  do '(flags, b) <- get_be 2 b ;
-  do '(ciaddr, b) <- get_be 4 b ;
-  do '(yiaddr, b) <- get_be 4 b ;
-  do '(siaddr, b) <- get_be 4 b ;
-  do '(giaddr, b) <- get_be 4 b ;
-  do '(chaddr, b) <- get_bytes 16 b ;
+  do (op, b) <- get_u8 pkt ;
+  do (htype, b) <- get_u8 b ;
+  do (hlen, b) <- get_u8 b ;
+  do (hops, b) <- get_u8 b ;
+  do (xid, b) <- get_be 4 b ;
+  do (secs, b) <- get_be 2 b ;
+  do (flags, b) <- get_be 2 b ;
+  do (ciaddr, b) <- get_be 4 b ;
+  do (yiaddr, b) <- get_be 4 b ;
+  do (siaddr, b) <- get_be 4 b ;
+  do (giaddr, b) <- get_be 4 b ;
+  do (chaddr, b) <- get_bytes 16 b ;
   if 16 <? hlen then Err E_INVALID else
-  do '(sname, b) <- get_bytes 64 b ;
-  do '(file, b) <- get_bytes 128 b ;
-  do '(mg, b) <- get_be 4 b ;
+  do (sname, b) <- get_bytes 64 b ;
+  do (file, b) <- get_bytes 128 b ;
+  do (mg, b) <- get_be 4 b ;
   if negb (mg =? 1669485411) then Err E_MAGIC else
   do opts <- parse_options (S (length b)) b [] ;
   Ok {| d_op := op; d_htype := htype; d_hlen := hlen; d_hops := hops; d_xid := xid;
